@@ -1,7 +1,7 @@
 //! C03 harness: typed program generator over the core fragment, real parser in the loop, real render.
 //!
 //! usage: c03 gen <quick|thorough> [n]  — generate programs; one line per case:
-//!            <id>\t<ctx sexp>\t<prog sexp>\t<result>\t<source hex>\t<stats>
+//!            <id>\t<ctx sexp>\t<prog sexp>\t<result>\t<source hex>\t<stats>\t<real instruction stream>
 //!        c03 batch                     — stdin lines `<id>\t<ctx sexp>\t<prog sexp>` -> same case lines
 //!                                        (replay, shrinking, corpus)
 //!        c03 src <source> [ctx sexp]   — render a hand-written source, dumping the parsed AST as sexp
@@ -11,7 +11,7 @@
 //! The AST handed to the Lean driver is the one dumped from the REAL parser (serde JSON ->
 //! `s_from`), and it is asserted equal to the generated AST, so `unparse` and the parser are in
 //! the loop.
-use minijinja::machinery::{parse, WhitespaceConfig};
+use minijinja::machinery::{get_compiled_template, parse, Instruction, WhitespaceConfig};
 use minijinja::syntax::SyntaxConfig;
 use minijinja::{Environment, Value};
 use mjh::*;
@@ -99,32 +99,84 @@ fn cv_value(v: &CV) -> Value {
     }
 }
 
-fn render_real(src: &str, ctx: &Ctx) -> String {
+/// a constant of the instruction stream in the value syntax of the context s-expressions
+fn value_sexp(v: &Value, o: &mut String) {
+    use minijinja::value::ValueKind;
+    if v.is_undefined() { o.push_str("undef"); return; }
+    match v.kind() {
+        ValueKind::None => o.push_str("none"),
+        ValueKind::Bool => o.push_str(if v.is_true() { "t" } else { "f" }),
+        ValueKind::Number => match i64::try_from(v.clone()) { Ok(i) => o.push_str(&format!("(i {})", i)), Err(_) => o.push_str(&format!("(other num:{})", v)) },
+        ValueKind::String => o.push_str(&format!("(s {})", hx(v.as_str().unwrap_or("")))),
+        ValueKind::Seq => { o.push_str("(l"); if let Ok(it) = v.try_iter() { for x in it { o.push(' '); value_sexp(&x, o); } } o.push(')'); }
+        ValueKind::Map => {
+            o.push_str("(m");
+            if let Ok(it) = v.try_iter() {
+                for k in it {
+                    match k.as_str() { Some(ks) => o.push_str(&format!(" ({} ", hx(ks))), None => o.push_str(" (other-key ") }
+                    value_sexp(&v.get_item(&k).unwrap_or_default(), o); o.push(')');
+                }
+            }
+            o.push(')');
+        }
+        other => o.push_str(&format!("(other {:?})", other)),
+    }
+}
+
+/// the REAL instruction stream of the compiled template
+fn code_sexp(t: &minijinja::Template) -> String {
+    let c = get_compiled_template(t);
+    let mut o = String::from("(code");
+    let mut i = 0;
+    while let Some(ins) = c.instructions.get(i) {
+        i += 1;
+        o.push_str(" (");
+        if let Instruction::LoadConst(v) = ins { o.push_str("LoadConst "); value_sexp(v, &mut o); o.push(')'); continue; }
+        let j = serde_json::to_value(ins).unwrap_or(J::Null);
+        let op = j["op"].as_str().unwrap_or("?").to_string();
+        o.push_str(&op);
+        match &j["arg"] {
+            J::Null => { if op == "BuildList" { o.push_str(" _"); } }
+            J::String(s) => { if op == "EmitRaw" { o.push(' '); o.push_str(&hx(s)); } else { o.push(' '); o.push_str(s); } }
+            J::Number(n) => o.push_str(&format!(" {}", n)),
+            J::Bool(b) => o.push_str(&format!(" {}", b)),
+            J::Array(a) => for x in a { match x { J::String(s) => { o.push(' '); o.push_str(s); } J::Null => o.push_str(" _"), other => o.push_str(&format!(" {}", other)) } },
+            other => o.push_str(&format!(" {}", other)),
+        }
+        o.push(')');
+    }
+    o.push(')');
+    o
+}
+
+/// -> (render result, real instruction stream)
+fn render_real(src: &str, ctx: &Ctx) -> (String, String) {
     let r = guarded(|| {
         let mut env = Environment::new();
-        if let Err(e) = env.add_template("t", src) { return format!("err:{}", error_kind_name(&e)); }
+        if let Err(e) = env.add_template("t", src) { return (format!("err:{}", error_kind_name(&e)), "-".to_string()); }
         let t = env.get_template("t").unwrap();
+        let code = code_sexp(&t);
         let root = Value::from_pairs(ctx.iter().map(|(k, v)| (k.clone(), cv_value(v))));
         match t.render(root) {
-            Ok(s) => format!("ok:{}", hx(&s)),
-            Err(e) => format!("err:{}", error_kind_name(&e)),
+            Ok(s) => (format!("ok:{}", hx(&s)), code),
+            Err(e) => (format!("err:{}", error_kind_name(&e)), code),
         }
     });
-    r.unwrap_or_else(|_| "panic".to_string())
+    r.unwrap_or_else(|_| ("panic".to_string(), "-".to_string()))
 }
 
 /// the case line: AST from the REAL parser (compared with `expected` when given)
 fn run_case(id: &str, ctx: &Ctx, src: &str, expected: Option<&[S]>, stats: &str) -> String {
     let clean = |s: String| s.replace('\t', " ").replace('\n', " ");
-    let (prog, result) = match real_ast(src) {
+    let (prog, result, code) = match real_ast(src) {
         Err(e) => (expected.map(|p| p.to_vec()).unwrap_or_default(),
-                   if e.starts_with("parse-error") { clean(e) } else { clean(format!("parse-mismatch:{}", e)) }),
+                   if e.starts_with("parse-error") { clean(e) } else { clean(format!("parse-mismatch:{}", e)) }, "-".to_string()),
         Ok(p) => {
-            if expected.map_or(false, |x| x != &p[..]) { (p, "parse-mismatch:ast differs from the generated one".to_string()) }
-            else { let r = render_real(src, ctx); (p, r) }
+            if expected.map_or(false, |x| x != &p[..]) { (p, "parse-mismatch:ast differs from the generated one".to_string(), "-".to_string()) }
+            else { let r = render_real(src, ctx); (p, r.0, r.1) }
         }
     };
-    format!("{}\t{}\t{}\t{}\t{}\t{}", id, ctx_sexp(ctx), prog_sexp(&prog), result, hx(src), stats)
+    format!("{}\t{}\t{}\t{}\t{}\t{}\t{}", id, ctx_sexp(ctx), prog_sexp(&prog), result, hx(src), stats, code)
 }
 
 fn main() {
@@ -156,7 +208,7 @@ fn main() {
                             let src = b_src(&prog);
                             writeln!(out, "{}", run_case(f[0], &ctx, &src, Some(&prog), "-")).unwrap();
                         }
-                        _ => writeln!(out, "{}\t{}\t{}\tbad-case\t-\t-", f[0], f[1], f[2]).unwrap(),
+                        _ => writeln!(out, "{}\t{}\t{}\tbad-case\t-\t-\t-", f[0], f[1], f[2]).unwrap(),
                     }
                 }
                 line.clear();
